@@ -639,4 +639,6 @@ def run(ctx):
     from . import c01
     from .common import shared
 
+    from . import c11 as _c11
+    shared(ctx, "C20.c", _c11.rule_axis_reduction, why="addressing an axis by Cartesian name or matrix index in a reduction (and in Image.slice, which reduces first) must drop that axis from the data, the dimensions and the origin alike")
     shared(ctx, "C20.c", c01.rule_b, why="CoordinateSystem.coordinate / voxel are the consumers of the axis table; they must place every axis where the table says")
